@@ -228,6 +228,9 @@ class DT(Inverter):
     async def read_sensor(self, sensor_id: str) -> Any:
         sensor: Sensor = self._get_sensor(sensor_id)
         if sensor:
+            if sensor.size_ == 0 or isinstance(sensor, (EnumBitmap4, EnumBitmap22)):
+                # calculated / multi-register sensors can be read only as part of the whole block
+                return (await self.read_runtime_data()).get(sensor_id)
             return await self._read_sensor(sensor)
         if sensor_id.startswith("modbus"):
             response = await self._read_from_socket(self._read_command(int(sensor_id[7:]), 1))
